@@ -150,6 +150,22 @@ def check (inp out : List String) : Verdict :=
       { agree := m == impl, model := if m then "1" else "0",
         specFail := failing [("network_applies_the_installed_filter", Spec.C17.shouldPass flt id == impl)] }
     | _, _, _ => .bad "C17 fnet tokens"
+  | ["frx", mode, items, raw1, raw2], [fr] =>
+    -- two frames waiting on a network with an installed filter, one `recv`: the first frame the filter passes is delivered,
+    -- masked and padded like any received frame
+    match (items.splitOn ";").mapM parseItem?, hexBytes? raw1, hexBytes? raw2 with
+    | some its, some raw1, some raw2 =>
+      let flt : Filter := ⟨its, mode = "A"⟩
+      let m := (netRecv flt raw1).orElse fun _ => netRecv flt raw2
+      let src := if (netRecv flt raw1).isSome then raw1 else raw2
+      match parseFrame? fr with
+      | some f =>
+        { agree := m == some f, model := (m.map showFrame).getD "none",
+          specFail := failing [("filtered_rx_mask_pad", m.isSome && Spec.C17.rxMaskPad src f)] }
+      | none =>
+        { agree := false, model := (m.map showFrame).getD "none",
+          specFail := failing [("filtered_frame_is_delivered", m.isNone)] }
+    | _, _, _ => .bad "C17 frx tokens"
   | _, _ => .bad "C17 arity"
 end C17
 
